@@ -1,0 +1,279 @@
+//! Hooks for the deterministic simulator in /verif. Compiled only with
+//! `--cfg rumqtt_verif`; every hook is a no-op on threads where no simulator
+//! is installed, so behaviour without the flag (and on ordinary threads with
+//! it) is unchanged.
+
+use std::cell::{Cell, RefCell};
+
+pub use crate::link::local::{LinkError, LinkRx, LinkTx};
+pub use crate::link::network::{Error as NetworkError, Network, N};
+pub use crate::link::remote::{mqtt_connect, Error as RemoteError, RemoteLink};
+pub use crate::router::iobufs::{Incoming, Outgoing};
+pub use crate::router::{Ack, Connection, Event, ShadowRequest};
+pub use crate::segments::{CommitLog, Position, Storage};
+
+/// Places in the router loop at which the simulator may run link-side steps.
+#[derive(Debug, Clone, Copy, PartialEq, Eq)]
+pub enum Site {
+    /// Top of `run_inner`.
+    RunTop,
+    /// Before the blocking `recv` on the event channel.
+    BeforeRecv,
+    /// Before each `try_recv` of the 500-event loop.
+    BeforeTryRecv,
+    /// Before each `consume` of the 100-iteration loop.
+    BeforeConsume,
+    /// Inside `consume`, before each `forward_device_data`.
+    BeforeForward,
+    /// Inside `forward_device_data`, between `push_forwards` and the
+    /// `Unschedule` push.
+    BeforeUnschedule,
+    /// `events()` is about to handle this event (kind: see `event_kind`).
+    Event { id: usize, kind: u8 },
+}
+
+pub const EV_CONNECT: u8 = 0;
+pub const EV_NEW_METER: u8 = 1;
+pub const EV_NEW_ALERT: u8 = 2;
+pub const EV_DEVICE_DATA: u8 = 3;
+pub const EV_DISCONNECT: u8 = 4;
+pub const EV_READY: u8 = 5;
+pub const EV_SHADOW: u8 = 6;
+pub const EV_SEND_ALERTS: u8 = 7;
+pub const EV_SEND_METERS: u8 = 8;
+pub const EV_PRINT_STATUS: u8 = 9;
+pub const EV_PUBLISH_WILL: u8 = 10;
+
+pub fn event_kind(e: &Event) -> u8 {
+    match e {
+        Event::Connect { .. } => EV_CONNECT,
+        Event::NewMeter(_) => EV_NEW_METER,
+        Event::NewAlert(_) => EV_NEW_ALERT,
+        Event::DeviceData => EV_DEVICE_DATA,
+        Event::Disconnect => EV_DISCONNECT,
+        Event::Ready => EV_READY,
+        Event::Shadow(_) => EV_SHADOW,
+        Event::SendAlerts => EV_SEND_ALERTS,
+        Event::SendMeters => EV_SEND_METERS,
+        Event::PrintStatus(_) => EV_PRINT_STATUS,
+        Event::PublishWill(_) => EV_PUBLISH_WILL,
+    }
+}
+
+type YieldFn = Box<dyn FnMut(Site)>;
+type ChooseFn = Box<dyn FnMut(usize) -> usize>;
+type BlockFn = Box<dyn FnMut()>;
+
+thread_local! {
+    static INSTALLED: Cell<bool> = const { Cell::new(false) };
+    static WOULD_BLOCK: Cell<bool> = const { Cell::new(false) };
+    static YIELD: RefCell<Option<YieldFn>> = const { RefCell::new(None) };
+    static CHOOSE: RefCell<Option<ChooseFn>> = const { RefCell::new(None) };
+    static BLOCK: RefCell<Option<BlockFn>> = const { RefCell::new(None) };
+}
+
+/// Marks the current thread as a simulator thread (or not).
+pub fn set_installed(on: bool) {
+    INSTALLED.with(|c| c.set(on));
+    WOULD_BLOCK.with(|c| c.set(false));
+}
+
+pub fn installed() -> bool {
+    INSTALLED.with(|c| c.get())
+}
+
+pub fn set_yield(f: Option<YieldFn>) {
+    YIELD.with(|c| *c.borrow_mut() = f);
+}
+
+pub fn set_choose(f: Option<ChooseFn>) {
+    CHOOSE.with(|c| *c.borrow_mut() = f);
+}
+
+pub fn set_block(f: Option<BlockFn>) {
+    BLOCK.with(|c| *c.borrow_mut() = f);
+}
+
+/// Removes every callback and the installed flag.
+pub fn uninstall() {
+    set_yield(None);
+    set_choose(None);
+    set_block(None);
+    set_installed(false);
+}
+
+/// Called by the router at each yield site. The callback is taken out of its
+/// cell while it runs so that it may itself call into hooked code.
+pub fn yield_point(site: Site) {
+    if !installed() {
+        return;
+    }
+    let f = YIELD.with(|c| c.borrow_mut().take());
+    if let Some(mut f) = f {
+        f(site);
+        YIELD.with(|c| {
+            let mut slot = c.borrow_mut();
+            if slot.is_none() {
+                *slot = Some(f);
+            }
+        });
+    }
+}
+
+/// Idle guard: on a simulator thread an empty event channel means the router
+/// would block for ever; report that instead.
+pub fn would_block(channel_empty: bool) -> bool {
+    if installed() && channel_empty {
+        WOULD_BLOCK.with(|c| c.set(true));
+        return true;
+    }
+    false
+}
+
+/// Reads and clears the "router would have blocked" flag.
+pub fn take_would_block() -> bool {
+    WOULD_BLOCK.with(|c| c.replace(false))
+}
+
+/// A choice in `0..n` made by the simulator, `None` when none is installed.
+pub fn choose(n: usize) -> Option<usize> {
+    if !installed() || n == 0 {
+        return None;
+    }
+    let f = CHOOSE.with(|c| c.borrow_mut().take());
+    let mut f = f?;
+    let v = f(n) % n;
+    CHOOSE.with(|c| {
+        let mut slot = c.borrow_mut();
+        if slot.is_none() {
+            *slot = Some(f);
+        }
+    });
+    Some(v)
+}
+
+/// Makes the order of a collection that was produced by iterating a
+/// `HashMap` a simulator decision: sorted by `key`, then permuted by choices.
+pub fn order_by<T, K: Ord>(v: &mut [T], key: impl FnMut(&T) -> K) {
+    if !installed() {
+        return;
+    }
+    v.sort_by_key(key);
+    for i in (1..v.len()).rev() {
+        match choose(i + 1) {
+            Some(j) => v.swap(i, j),
+            None => return,
+        }
+    }
+}
+
+/// Called immediately before a blocking receive on a link's own channel. On a
+/// simulator thread the installed callback (which steps the router) is run
+/// until `ready()` holds or `limit` calls were made.
+pub fn block_point(mut ready: impl FnMut() -> bool) {
+    if !installed() {
+        return;
+    }
+    for _ in 0..10_000 {
+        if ready() {
+            return;
+        }
+        let f = BLOCK.with(|c| c.borrow_mut().take());
+        let Some(mut f) = f else { return };
+        f();
+        BLOCK.with(|c| {
+            let mut slot = c.borrow_mut();
+            if slot.is_none() {
+                *slot = Some(f);
+            }
+        });
+    }
+}
+
+/// Read-only view of router state for invariants and stall classification.
+#[derive(Debug, Clone, Default)]
+pub struct VerifSnapshot {
+    pub connections: Vec<ConnSnapshot>,
+    pub readyqueue: Vec<usize>,
+    pub channel_len: usize,
+    pub groups: Vec<GroupSnapshot>,
+    pub graveyard: Vec<String>,
+    pub last_wills: Vec<String>,
+    pub max_connections: usize,
+}
+
+#[derive(Debug, Clone, Default)]
+pub struct ConnSnapshot {
+    pub id: usize,
+    pub client_id: String,
+    pub clean: bool,
+    /// 0 ready, 1 caught-up, 2 inflight-full, 3 busy
+    pub status: u8,
+    pub tracked: Vec<(String, (u64, u64))>,
+    pub parked: Vec<(String, (u64, u64))>,
+    pub inflight: usize,
+    pub unacked_pubrels: usize,
+    pub outgoing_len: usize,
+    pub incoming_len: usize,
+    pub pending_acks: usize,
+    pub subscriptions: Vec<String>,
+}
+
+#[derive(Debug, Clone, Default)]
+pub struct GroupSnapshot {
+    pub name: String,
+    pub members: Vec<String>,
+    pub current: Option<String>,
+    pub cursor: (u64, u64),
+}
+
+impl crate::protocol::Publish {
+    /// Full constructor (`dup`, `qos` and `pkid` are crate-private).
+    pub fn verif_new(
+        topic: bytes::Bytes,
+        payload: bytes::Bytes,
+        qos: crate::protocol::QoS,
+        pkid: u16,
+        retain: bool,
+        dup: bool,
+    ) -> Self {
+        crate::protocol::Publish {
+            dup,
+            qos,
+            pkid,
+            retain,
+            topic,
+            payload,
+        }
+    }
+
+    /// `(dup, qos, pkid)`.
+    pub fn verif_meta(&self) -> (bool, crate::protocol::QoS, u16) {
+        (self.dup, self.qos, self.pkid)
+    }
+}
+
+impl Incoming {
+    pub fn verif_new(client_id: String) -> Self {
+        Incoming::new(client_id)
+    }
+
+    pub fn verif_buffer(
+        &self,
+    ) -> std::sync::Arc<parking_lot::Mutex<std::collections::VecDeque<crate::protocol::Packet>>>
+    {
+        self.buffer()
+    }
+}
+
+impl Outgoing {
+    pub fn verif_new(client_id: String) -> (Self, flume::Receiver<()>) {
+        Outgoing::new(client_id)
+    }
+
+    pub fn verif_buffer(
+        &self,
+    ) -> std::sync::Arc<parking_lot::Mutex<std::collections::VecDeque<crate::Notification>>> {
+        self.buffer()
+    }
+}
